@@ -18,8 +18,9 @@ N = {'quick': 1000, 'thorough': 40000}
 BATCH = 8
 RULE = ('seeded small worlds (1-4 segments, <=3 channels, contiguous / interleaved / strings / no-metadata '
         'segments, last lead-in explicit or carrying the 0xFFFFFFFFFFFFFFFF marker); the producer crashes at EVERY '
-        'byte offset 4..len of each world (exhaustive per world); each truncated file is read eagerly and '
-        'lazily (+ seeded lazy windows; every 16th cut also through a real file) and compared with the prefix '
+        'byte offset 4..len of each world (exhaustive per world for files up to 3000 bytes; longer files - wide DAQmx rows, long channels - at every '
+        'lead-in / metadata offset, every chunk boundary +-1 and a seeded sample of >= 500 other raw-data offsets); each truncated file is read eagerly and '
+        'lazily (+ seeded lazy windows; every 16th cut also through a real path, every 7th through BytesIO / a buffered / an unbuffered real file) and compared with the prefix '
         'oracle. evaluations = worlds, sub_evaluations = crash points. distinct = segment shape sequence; '
         'non-trivial = some cut fell strictly inside raw data that holds values')
 EXPECTED_PROBES = ['cut-via:rawfile', 'cut:lead-in', 'cut:metadata', 'cut:chunk-boundary', 'cut:mid-row-interleaved', 'cut:mid-value',
@@ -63,7 +64,29 @@ def generate(rng, tier):
     spec = maybe_daqmx_world(rng, 0.12)
     if spec is None:
         spec, w, _ = gen.gen_world(rng, o)
-    return {'spec': spec, 'raw_ts': rng.random() < 0.5, 'cuts': None, 'win_seed': rng.getrandbits(32)}
+    else:
+        w = build(spec)
+    cuts = sample_cuts(rng, w)
+    return {'spec': spec, 'raw_ts': rng.random() < 0.5, 'cuts': cuts, 'sampled': cuts is not None, 'win_seed': rng.getrandbits(32)}
+
+
+def sample_cuts(rng, w, limit=3000):
+    """None (= every byte offset) for files up to `limit` bytes; for longer files every offset inside a lead-in or
+    metadata block, every chunk boundary +-1, the end of file, and a seeded sample of the remaining raw-data offsets."""
+    n = len(w.data)
+    if n - 4 <= limit:
+        return None
+    keep = {n}
+    for s in w.segs:
+        keep.update(range(max(4, s.pos), min(n, s.data_pos) + 1))
+        if s.chunk_size:
+            for b in range(s.data_pos, min(s.end, n) + 1, s.chunk_size):
+                keep.update(x for x in (b - 1, b, b + 1) if 4 <= x <= n)
+    if len(keep) > limit:
+        keep = set(rng.sample(sorted(keep), limit)) | {n}
+    rest = [c for c in range(4, n + 1) if c not in keep]
+    keep.update(rng.sample(rest, min(len(rest), max(500, limit - len(keep)))))
+    return sorted(keep)
 
 
 def classify_cut(w, c):
@@ -335,7 +358,7 @@ def execute(case):
                 res.nontrivial = True
             win_rng = random.Random(case['win_seed'] * 100003 + c)
             vs = check_cut(w, c, raw_ts, st, res, win_rng, real=False)
-            if case['cuts'] is None and c % 16 == 5:
+            if (case['cuts'] is None or case.get('sampled')) and c % 16 == 5:
                 vs += check_cut(w, c, raw_ts, st, res, win_rng, real=True)
                 res.probe('realfs-cut')
             elif (c * 2654435761 + case['win_seed']) % 7 == 0:
@@ -380,6 +403,7 @@ def shrink_candidates(case):
     for cand in list_candidates(case['cuts'], keep_min=1):
         c = dict(case)
         c['cuts'] = cand
+        c['sampled'] = False
         yield c
     # spec reductions move byte offsets: retry all cuts of the smaller spec
     for sp in spec_candidates(case['spec']):
@@ -395,5 +419,7 @@ def sample(case):
         return {'writer_program': prog_sig(case['writer']), 'cuts': 'every offset 4..len', 'raw_timestamps': case['raw_ts']}
     w = build(case['spec'])
     from .c04 import _sig
-    return {'segments': _sig(case['spec']), 'file_bytes': len(w.data), 'cuts': 'every offset 4..%d' % len(w.data),
+    return {'segments': _sig(case['spec']), 'file_bytes': len(w.data),
+            'cuts': ('every offset 4..%d' % len(w.data)) if case['cuts'] is None else '%d offsets (every lead-in / metadata offset, chunk '
+            'boundaries +-1, seeded sample of the other raw-data offsets)' % len(case['cuts']),
             'raw_timestamps': case['raw_ts']}
